@@ -182,18 +182,69 @@ class Pump(PumpFamily):
                for size in (16384, 16385, 70000, 262144, 524288, 600000, 1100000, 2500000) for cuts in (0, 3)]
         for c in self.share(big):
             yield c
+        for c in self.share(self.talkative()):
+            yield c
         for i in range(n):
             c = gen_pump_case(rng)
+            # asyncio's contract for what this backend runs on (a TCP transport): an exception that leaves data_received() is fatal,
+            # the transport is force-closed and connection_lost(exc) follows - the client gets whatever had been written, no more
+            c["fatal"] = True
             if i % 12 == 0:   # bytes sent without TLS: never a Gemini response, never a handler
                 c["plaintext"] = rng.choice([b"gemini://localhost/\r\n", b"GET / HTTP/1.0\r\n\r\n", bytes(rng.randrange(256) for _ in range(30)), b"\x16\x03\x01\x00\x05hello"]).hex()
             yield c
+
+    @staticmethod
+    def talkative():
+        """clients that keep sending after their complete request while the answer is still pending (a handler that completes later,
+        the middleware task, an upload handler at work): a second request line, an upload body nobody asked for, single bytes, a full
+        TLS record; every record in a read of its own or all of them in one.  The extra bytes are the client's business - the request
+        has been delivered, so its one response is due as soon as the handler has finished."""
+        ok = [20, "text/gemini", ["s", "# late\n"]]
+        extras = [[b"gemini://localhost/second\r\n"], [b"x"], [b"\r\n"], [b"more", b"and more"], [b"E" * 16384], [b"a", b"b", b"c"]]
+        out = []
+        for k, extra in enumerate(extras):
+            for req, up, mw, post in (
+                    ([b"gemini://localhost/page\r\n"], False, False, [["ha", ok]]),
+                    ([b"gemini://localhost/page\r\n"], True, True, [["ma"], ["ha", ok]]),
+                    ([b"gemini://localhost/page\r\n"], False, True, [["md", "53 Access denied\r\n"]]),
+                    ([b"gemini://localhost/page\r\n"], False, False, [["hr"]]),
+                    ([b"titan://localhost/f;size=3\r\n", b"abc"], True, False, [["ua", ok]]),
+                    ([b"titan://localhost/f;size=3\r\nabc"], True, True, [["ma"], ["ur"]])):
+                for sep in (True, False):
+                    n_rec = len(req) + len(extra)
+                    out.append({"up": up, "mw": mw, "handler": ["a"], "app": [x.hex() for x in req + extra], "close_notify": False, "plaintext": None,
+                                "cutseed": k, "maxcuts": 0, "stall": None, "cert": [None, 0][k % 2], "post": post, "fatal": True,
+                                "edgecuts": {"s": [[-j, 0] for j in range(1, n_rec + 1)]} if sep else None})
+        return out
+
+    @staticmethod
+    def oracle_answered(case, obs):
+        """the half of C01 the well-formedness rules do not cover on this backend: a client that completed the TLS handshake and
+        delivered a full request line (or more than 1024 bytes) and is still there gets its response once nothing the server waits
+        for is outstanding.  Judged only when the case leaves no doubt: no stall, no close_notify from the client (a client that
+        has said good-bye may be left without an answer), every scripted completion that was started has been completed."""
+        if case.get("stall") or case.get("close_notify") or obs.get("pending") is None or obs["pending"]:
+            return None
+        data = b"".join(bytes.fromhex(a) for a in case["app"])
+        if b"\r\n" not in data and len(data) <= 1024:
+            return None
+        if obs["plain"] != "-":
+            return None
+        sent = b"".join(bytes.fromhex(a) for a in case["app"])
+        line = sent.split(b"\r\n", 1)[0][:80]
+        after = sent.split(b"\r\n", 1)[1] if b"\r\n" in sent else b""
+        return ("no-response", f"the client completed the TLS handshake, delivered the request line {line!r}"
+                               + (f" and then {len(after)} more bytes ({after[:24]!r}...)" if after else "")
+                               + f" in {len(case['app'])} TLS records and stayed connected; handler calls h={obs['h']} u={obs['u']} m={obs['m']}, nothing is outstanding"
+                               + f" - yet it received 0 bytes (TCP connection closed: {obs['tcpclosed']}"
+                               + (f"; an exception left data_received, which asyncio treats as fatal: {obs['exc'][0]}" if obs["exc"] else "") + ")")
 
     def oracle(self, case, obs):
         if case.get("plaintext") is not None:
             if obs["h"] or obs["u"] or obs["m"] or obs["plain"] != "-":
                 return ("plaintext-served", f"bytes sent without TLS reached a handler or elicited a response: {obs}")
             return None
-        return self.oracle_wellformed(case, obs) or self.oracle_once(case, obs)
+        return self.oracle_wellformed(case, obs) or self.oracle_once(case, obs) or self.oracle_answered(case, obs)
 
 
 class Content(Family):
